@@ -59,22 +59,26 @@ def batchIdMissing (it : Item) : Bool :=
   | none => true
   | some s => s.isEmpty
 
-/-- the `for batch_item in request_batch` loop; `n` = total number of items -/
-def processBatch (c : Ctx) (n : Nat) (stop : Bool) :
-    Engine → List Item → List ItemResult → Engine × Except (Nat × String) (List ItemResult)
-  | e, [], acc => (e, .ok acc.reverse)
+/-- the `for batch_item in request_batch` loop -/
+def processBatch (c : Ctx) (stop : Bool) : Engine → List Item → List ItemResult → Engine × List ItemResult
+  | e, [], acc => (e, acc.reverse)
   | e, it :: rest, acc =>
-    if n > 1 && batchIdMissing it then (e, .error (Rsn.invalidMessage, "Batch item ID is undefined.")) else
     match processOperation c e it with
-    | .ok (eff, d) => processBatch c n stop (applyEffect e eff) rest (⟨it.payload.op, it.batchId, .ok d⟩ :: acc)
+    | .ok (eff, d) => processBatch c stop (applyEffect e eff) rest (⟨it.payload.op, it.batchId, .ok d⟩ :: acc)
     | .error err =>
       let acc' := ⟨it.payload.op, it.batchId, .error err⟩ :: acc
-      if stop then (e, .ok acc'.reverse) else processBatch c n stop e rest acc'
+      if stop then (e, acc'.reverse) else processBatch c stop e rest acc'
+
+/-- `batch_error_cont_option`: only CONTINUE (1) keeps going after a failed item -/
+def Request.stop (r : Request) : Bool :=
+  match r.batchOption with
+  | some 1 => false
+  | _ => true
 
 /-- `process_request(request, credential)` -/
 def processRequest (c : Ctx) (e : Engine) (id : Identity) (r : Request) : Engine × ReqResult :=
-  -- self._client_identity = [None, None]
-  let e := { e with identity := ⟨none, none⟩ }
+  -- self._client_identity = [None, None]; self._id_placeholder = None
+  let e := { e with identity := ⟨none, none⟩, placeholder := none }
   if !c.supportedVersions.contains r.version then
     (e, .rejected Rsn.invalidMessage "KMIP version is not supported by the server.") else
   let e := { e with version := r.version }
@@ -90,11 +94,10 @@ def processRequest (c : Ctx) (e : Engine) (id : Identity) (r : Request) : Engine
   if r.async == some true then (e, .rejected Rsn.invalidMessage "Asynchronous operations are not supported.") else
   let e := { e with identity := id }
   if r.batchOption == some 3 then (e, .rejected Rsn.invalidMessage "Undo option for batch handling is not supported.") else
-  let stop := match r.batchOption with
-    | some 1 => false
-    | _ => true
-  match processBatch c r.items.length stop e r.items [] with
-  | (e', .ok rs) => (e', .results rs)
-  | (e', .error (rsn, m)) => (e', .rejected rsn m)
+  -- every item of a multi-item batch must carry an ID (checked before the loop)
+  if r.items.length > 1 && r.items.any batchIdMissing then
+    (e, .rejected Rsn.invalidMessage "Batch item ID is undefined.") else
+  let (e', rs) := processBatch c r.stop e r.items []
+  (e', .results rs)
 
 end Kmip
